@@ -12,6 +12,10 @@ C12.f repair: the new content of a file is exactly the subsequence of its blobs 
 C12.g rewrite: a node is removed only if the exclusion matcher says Ignore.
 C12.d also: the blob-collecting walk starts from the root tree of EVERY snapshot to copy (no filter by presence in the
   destination: a present root does not imply present children).
+C12.i tree order key (sibling agreement, D20): trees are stored ordered by the UNESCAPED name (the walker sorts by path, the
+  parent cursor walk compares Node::name()). Every ORDERING comparison of node names in the crate (Ord::cmp / PartialOrd /
+  max / min) takes Node::name() - never the escaped `Node.name` string, whose order differs for names containing a quote,
+  backslash, control or non-UTF-8 bytes: a k-way merge keyed by the escaped string emits such names twice.
 C12.e also: the merged subtree is attached only if the winning node itself is a directory.
 C12.h processed-tree caches of tree visitors are keyed by everything the processing depends on: the rewrite visitor matches
   globs against the path, so its caches must be keyed by (path, tree id); repair's is path-independent.
@@ -167,6 +171,35 @@ def run(ctx, rep):
         oksub = (oksub or via_match) and (via_call or via_match)
     rep.check("C12.e", "subtree-only-for-dir-winner", oksub, where=MN.loc(), what="merge_nodes attaches a merged subtree only if the chosen node itself is a directory" if oksub else
               "merge_nodes attaches a subtree to the chosen node without testing that THIS node is a directory: a file that wins over same-named directories gets a subtree")
+    # ---- C12.i -------------------------------------------------------------------------------------
+    rep.rule("C12.i", "node names are ordered by the unescaped name everywhere (the order trees are stored in)")
+    ORD = re.compile(r"cmp::Ord(>)?::(cmp|max|min)$|cmp::PartialOrd(<.*>)?(>)?::(partial_cmp|lt|le|gt|ge)$|as std::cmp::Ord>::cmp$|as std::cmp::PartialOrd(<.*>)?>::(partial_cmp|lt|le|gt|ge)$")
+    n_unesc, raw_sites = 0, []
+    # one named exception: the derived structural order of Node itself (field by field) only serves as a BTreeMap key in
+    # find_nodes / find_matching, whose results are re-ordered by their insertion index - it never decides a tree position
+    EXEMPT = re.compile(r"^<rustic_core::backend::node::Node as std::cmp::(PartialOrd|Ord)>::")
+    for b in prog.by_crate["rustic_core"]:
+        if EXEMPT.search(b.path):
+            continue
+        for bb, t in b.calls():
+            if "callee" not in t or not (ORD.search(callee(t)) or ORD.search(callee_decl(t))) or len(t["args"]) < 2:
+                continue
+            sides = []
+            for a in t["args"][:2]:
+                e = flow.expr_of(b, a, bb)
+                flds, cls = flow.expr_mentions(e)
+                unesc = any(c.endswith("backend::node::Node::name") for c in cls)
+                raw = (not unesc) and _raw_name_field(b, a, e)
+                sides.append((unesc, raw))
+            if any(u for u, _ in sides):
+                n_unesc += 1
+            if any(r for _, r in sides):
+                raw_sites.append((b, bb))
+    for b, bb in raw_sites:
+        rep.check("C12.i", f"{fn_key(b)}/orders-by-escaped-name", False, where=where(b, bb),
+                  what=f"{fn_key(b)} orders nodes by the escaped `Node.name` string; stored trees are ordered by the unescaped name (Node::name()), so names containing a quote, backslash or non-UTF-8 bytes are visited out of order (merge lists them twice)")
+    rep.check("C12.i", "no-ordering-on-escaped-name", not raw_sites, where=MN.loc(), what=f"no ordering comparison in rustic_core takes the escaped Node.name field ({n_unesc} ordering comparisons use Node::name())")
+    rep.floor("C12.i", "ordering comparisons on node names examined (unescaped + escaped)", n_unesc + len(raw_sites), 2)
     # ---- C12.f -------------------------------------------------------------------------------------
     PN = prog.find1(r"^<rustic_core::commands::repair::snapshots::RepairState<'_, I> as rustic_core::blob::tree::modify::Visitor>::process_node$")
     fam = [PN] + prog.closures_of(PN)
@@ -392,3 +425,36 @@ def _closure_calls(prog, body, sl):
 
 def _creations(body, c):
     return []
+
+
+def _raw_name_field(body, op, e):
+    """the operand is (a reference to) the `name` field of backend::node::Node itself"""
+    def is_name_path(x):
+        return isinstance(x, tuple) and len(x) >= 3 and x[0] in ("path", "proj") and isinstance(x[2], list) and x[2] and x[2][-1] == "name"
+    def walk(x, d=0):
+        if d > 6 or not isinstance(x, tuple):
+            return False
+        if is_name_path(x):
+            return True
+        if x[0] in ("ref", "deref", "un", "cast") or (x[0] == "call" and re.search(r"Deref>::deref$|AsRef<.*>>::as_ref$|String::as_str$|Borrow<.*>>::borrow$", x[1])):
+            return any(walk(y, d + 1) for y in x[1:] if isinstance(y, (tuple, list))) or any(walk(z, d + 1) for y in x[1:] if isinstance(y, list) for z in y)
+        return False
+    if not walk(e):
+        return False
+    # owner of the field: the place projection carries the ADT
+    pl = op_place(op)
+    seen = set()
+    work = [pl] if pl else []
+    while work:
+        q = work.pop()
+        if q is None or tuple(map(str, q)) in seen:
+            continue
+        seen.add(tuple(map(str, q)))
+        for el in q[1:]:
+            if isinstance(el, list) and el[0] == "f" and el[2] == "name":
+                return (el[4] or "").endswith("backend::node::Node")
+        for d_ in body.defs().get(q[0], []):
+            if d_[0] == "stmt" and d_[4][0] in ("ref", "refmut", "use"):
+                src = d_[4][1]
+                work.append(src if d_[4][0] != "use" else op_place(src))
+    return False
